@@ -548,7 +548,7 @@ done:
 				end = tf[1]
 			}
 			if 2 < len(tf) {
-				step = tf[2]
+				step = boundStep(tf[2])
 			}
 			switch tv := prev.(type) {
 			case []any:
